@@ -131,16 +131,16 @@ const (
 var c07Users = []string{c07Creator, c07Alice, c07Bob, c07Carol}
 
 type c07Room struct {
-	Version    string
-	Federate   string            // "", "true", "false"
-	AddCreator []string          // v12 additional_creators
-	HasPL      bool
-	PL         jv                // content
-	JoinRule   string            // "-" = no join rules event
-	Members    map[string]string // user -> membership ("-" absent)
-	Via        string
-	TPI        *jv // content of the third_party_invite event (state key "tok")
-	TPISender  string
+	Version           string
+	Federate          string   // "", "true", "false"
+	AddCreator        []string // v12 additional_creators
+	HasPL             bool
+	PL                jv                // content
+	JoinRule          string            // "-" = no join rules event
+	Members           map[string]string // user -> membership ("-" absent)
+	Via               string
+	TPI               *jv // content of the third_party_invite event (state key "tok")
+	TPISender         string
 	CreateRoomVersion string // "=" same as version, "-" absent, else literal
 }
 
